@@ -2,6 +2,7 @@
 import numpy as np
 
 from .. import shims_cl
+from .. import symcore as sc
 from ..clcommon import ift, field_of, flat_of, setup_cl, unflat, vdot_flat
 
 U = lambda *s: ift.UnstructuredDomain(s if len(s) > 1 else s[0])
@@ -12,16 +13,45 @@ def setup():
     import nifty.cl.utilities as ut
     shims_cl.proxy_np(ut)
     orig = ut.special_add_at
+    from nifty.cl.any_array import AnyArray
+
+    class _Inter(sc.SymArr):
+        """real object array holding interleaved (re, im) pairs along the last axis;
+        .view(<complex dtype>) pairs them up again"""
+
+        def view(self, *a, **k):
+            if a and (a[0] is object or a[0] == np.dtype(object)):
+                flat = np.asarray(self)
+                out = np.empty(flat.shape[:-1] + (flat.shape[-1] // 2,), dtype=object)
+                for idx in np.ndindex(*out.shape):
+                    out[idx] = sc.SC(sc._lift(flat[idx[:-1] + (2 * idx[-1],)]), sc._lift(flat[idx[:-1] + (2 * idx[-1] + 1,)]))
+                return out.view(sc.SymArr)
+            return np.ndarray.view(self, *a, **k)
+
+    class _Pair(sc.SymArr):
+        """complex object array; .view(<real dtype>) reinterprets it as interleaved reals
+        (what ndarray.view(float64) does to complex128 memory)"""
+
+        def view(self, *a, **k):
+            if a and (a[0] is object or a[0] == np.dtype(object)):
+                src = np.asarray(self)
+                out = np.empty(src.shape[:-1] + (2 * src.shape[-1],), dtype=object)
+                for idx in np.ndindex(*src.shape):
+                    e = sc.SC._c(src[idx])
+                    out[idx[:-1] + (2 * idx[-1],)] = e.r
+                    out[idx[:-1] + (2 * idx[-1] + 1,)] = e.i
+                return out.view(_Inter)
+            return np.ndarray.view(self, *a, **k)
 
     def special_add_at(a, axis, index, b):
         # The real function reinterprets complex memory as pairs of floats
-        # (.view), which object arrays cannot do: in complex mode the *real*
-        # function is run on the real and on the imaginary parts separately.
+        # (.view).  Object arrays have no such memory layout: the two view()
+        # calls are emulated (pair <-> interleave), everything else -- shapes,
+        # loop bounds, bincount calls -- is the real code.
         if a.dtype == object and shims_cl.COMPLEX_MODE[0]:
-            with shims_cl.complex_mode(False):
-                re = orig(a.real, axis, index, b.real)
-                im = orig(a.imag, axis, index, b.imag)
-            return re + 1j * im
+            a2 = AnyArray(np.array(a._val, dtype=object).view(_Pair))
+            b2 = AnyArray(np.array(b._val, dtype=object).view(_Pair))
+            return orig(a2, axis, index, b2)
         return orig(a, axis, index, b)
     ut.special_add_at = special_add_at
     import nifty.cl.operators.distributors as di
